@@ -573,6 +573,25 @@ def r165(chk, m, cfg, opts):
                    'directory = out-%%(theme)s read with theme=first, then with theme=second: %s' % sorted(got), chk.where(fn))
     except D.Imprecise as e:
         chk.undecided(R, 'a reference follows the current value of the named option', str(e), chk.where(fn))
+    # a name that two sections have: the first section in the order of the configuration answers (as the wrapper's contract says)
+    c5 = copy.deepcopy(cfg)
+    seen_in = {}
+    for sname, key, o in options_of(c5):
+        seen_in.setdefault(key, []).append((sname, o))
+    dup = sorted(k for k, v in seen_in.items() if len(v) > 1 and all(isinstance(o.attrs.get('value'), str) for _s, o in v))
+    if dup:
+        k0 = dup[0]
+        for sname, o in seen_in[k0]:
+            o.attrs['value'] = 'value-of-%s' % sname
+        find_opt(c5, 'general', 'kpsewhich').attrs['value'] = '<%%(%s)s>' % k0
+        try:
+            outs = interp_fn(m, fn, {'self': c5.attrs['__dict']['general'], 'key': 'kpsewhich'}, cls=CS)
+            got = {repr(v) if kind == 'return' and isinstance(v, str) else ('raises %s' % (v,) if kind == 'raise' else 'TOP') for kind, s, v in outs}
+            chk.decide(R, 'a name that several sections have', got, {repr('<value-of-%s>' % seen_in[k0][0][0])},
+                       '%%(%s)s with %s set in the sections %s reads as %s; expected the value of the first of these sections'
+                       % (k0, k0, [s_ for s_, _o in seen_in[k0]], sorted(got)), chk.where(fn))
+        except D.Imprecise as e:
+            chk.undecided(R, 'a name that several sections have', str(e), chk.where(fn))
     # an unknown reference is an error, not silently kept
     find_opt(c2, 'general', 'theme').attrs['value'] = '%(no-such-option)s'
     try:
